@@ -87,6 +87,8 @@ type mwObs struct {
 
 const mwSentinel = "\x00#verif-sentinel"
 
+var mwTimeouts int // sentinel round trips that timed out in this run
+
 // ---------------------------------------------------------------- conversions
 
 func (e *mwEvent) toEvent(now int64) *mocrelay.Event {
@@ -382,7 +384,13 @@ func (s *mwSession) run(op mwOp) mwObs {
 	} else {
 		sq = []mocrelay.ServerMsg{op.M.toMsg(s.now)}
 	}
-	deadline := time.NewTimer(1500 * time.Millisecond)
+	// a sentinel that does not come back means a hung pipeline; wait long enough that
+	// machine load cannot be mistaken for it, but do not let a hanging mutant stall the run
+	wait := 6 * time.Second
+	if mwTimeouts > 10 {
+		wait = 300 * time.Millisecond
+	}
+	deadline := time.NewTimer(wait)
 	defer deadline.Stop()
 	for {
 		var rc chan mocrelay.ClientMsg
@@ -413,6 +421,7 @@ func (s *mwSession) run(op mwOp) mwObs {
 			obs.Timeout = true
 			return obs
 		case <-deadline.C:
+			mwTimeouts++
 			s.dead = true
 			obs.Timeout = true
 			s.mu.Lock()
@@ -716,10 +725,10 @@ func c17Gen(root *common.Rand, i int) c17Case {
 		return c
 	}
 	c.K = "nip11"
-	switch k := r.Intn(100); {
-	case k < 4:
+	switch k := r.Intn(200); {
+	case k < 6:
 		c.Doc = "nil"
-	case k < 12:
+	case k < 10:
 		c.Doc = "nolim"
 	default:
 		c.Doc = "lim"
